@@ -149,6 +149,30 @@ static void mk_markers(int id, int src)
   if (id >= nlib) nlib = id + 1;
 }
 
+/* tables-only stream `src` with marker segments spliced in after SOI: COM, APP1 and (icc) an APP2 ICC_PROFILE chunk */
+static void mk_tables_markers(int id, int src, int icc)
+{
+  unsigned char seg[512];
+  size_t n = 0, k;
+  static const unsigned char com[] = { 0xFF, 0xFE, 0x00, 0x0A, 't', 'a', 'b', 'l', 'e', 's', '!', '!' };
+  static const unsigned char app1[] = { 0xFF, 0xE1, 0x00, 0x08, 'E', 'x', 'i', 'f', 0, 0 };
+  memcpy(seg + n, com, sizeof(com)); n += sizeof(com);
+  memcpy(seg + n, app1, sizeof(app1)); n += sizeof(app1);
+  if (icc) {
+    size_t plen = 200, len = 2 + 14 + plen;
+    seg[n++] = 0xFF; seg[n++] = 0xE2; seg[n++] = (unsigned char)(len >> 8); seg[n++] = (unsigned char)len;
+    memcpy(seg + n, "ICC_PROFILE", 12); n += 12;
+    seg[n++] = 1; seg[n++] = 1;
+    for (k = 0; k < plen; k++) seg[n++] = (unsigned char)(0x70 + (k & 7));
+  }
+  lib[id] = malloc(libsz[src] + n);
+  memcpy(lib[id], lib[src], 2);
+  memcpy(lib[id] + 2, seg, n);
+  memcpy(lib[id] + 2 + n, lib[src] + 2, libsz[src] - 2);
+  libsz[id] = libsz[src] + n;
+  if (id >= nlib) nlib = id + 1;
+}
+
 static void build_library(void)
 {
   /*  id prec  w   h   pf         subsamp     q  pr ar ll psv pt op rb rr cs icc */
@@ -179,6 +203,8 @@ static void build_library(void)
   mk(25, 8,  64, 64, TJPF_RGB,  TJSAMP_422, 75, 0, 0, 0, 1, 0, 0, 0, 0, -1, 0);
   mk(26, 8,  64, 64, TJPF_RGB,  TJSAMP_444, 75, 0, 0, 0, 1, 0, 0, 0, 0, -1, 3);
   mk(27, 8,  256, 256, TJPF_RGB, TJSAMP_444, 75, 1, 0, 0, 1, 0, 0, 0, 0, -1, 0);   /* ~400 KB of coefficient arrays */
+  mk_tables_markers(28, 22, 1);   /* tables-only + COM + APP1 + APP2/ICC */
+  mk_tables_markers(29, 22, 0);   /* tables-only + COM + APP1 */
 }
 
 /* parse the marker structure of a stream up to SOS: offsets of marker starts */
@@ -275,11 +301,18 @@ static void hook_error_exit(j_common_ptr cinfo)
   my_error_exit(cinfo);
 }
 
+static int (*orig_read_markers) (j_decompress_ptr) = NULL;
+static void (*orig_reset_marker_reader) (j_decompress_ptr) = NULL;
+
 static tjhandle new_instance(int type)
 {
   tjhandle hnd = tj3Init(type);
   tjinstance *t = (tjinstance *)hnd;
   if (!t) die("tj3Init failed");
+  if ((t->init & DECOMPRESS) && !orig_read_markers) {
+    orig_read_markers = t->dinfo.marker->read_markers;
+    orig_reset_marker_reader = t->dinfo.marker->reset_marker_reader;
+  }
   t->jerr.pub.error_exit = hook_error_exit;
   return hnd;
 }
@@ -340,6 +373,10 @@ static void dump_state(tjinstance *t, char *out, size_t cap)
   n += snprintf(out + n, cap - n, "m:%ld,%d,%ld,%d ",
                 (t->init & COMPRESS) ? mem_drift(t->cinfo.mem) : 0L, (t->init & COMPRESS) ? image_pool_empty(t->cinfo.mem) : 1,
                 (t->init & DECOMPRESS) ? mem_drift(t->dinfo.mem) : 0L, (t->init & DECOMPRESS) ? image_pool_empty(t->dinfo.mem) : 1);
+  /* are the marker reader's methods the ones jinit_marker_reader installed? */
+  n += snprintf(out + n, cap - n, "k:%d,%d ",
+                (t->init & DECOMPRESS) ? (t->dinfo.marker->read_markers == orig_read_markers) : 1,
+                (t->init & DECOMPRESS) ? (t->dinfo.marker->reset_marker_reader == orig_reset_marker_reader) : 1);
   n += snprintf(out + n, cap - n, "p:");
   for (i = 0; i < C12_NUMPARAM; i++) n += snprintf(out + n, cap - n, "%d,", tj3Get((tjhandle)t, i));
   n += snprintf(out + n, cap - n, "%d,%d,%d,%d,%d,%d,%d", t->scalingFactor.num, t->scalingFactor.denom, t->croppingRegion.x,
@@ -554,8 +591,12 @@ static void run_op(struct runctx *rc, char **tk, int nt, struct opres *r)
     size_t ysz, osz, i;
     unsigned char *yuv, *out;
     unsigned int s = seed * 31u + 7u;
-    if (w < 1 || w > MAXDIM) w = 16;
-    if (hh < 1 || hh > MAXDIM) hh = 16;
+    if (w > 65500 && w <= 70000 && hh >= 1 && hh <= 2) ;            /* too wide: error inside jpeg_read_header */
+    else if (hh > 65500 && hh <= 70000 && w >= 1 && w <= 2) ;
+    else {
+      if (w < 1 || w > MAXDIM) w = 16;
+      if (hh < 1 || hh > MAXDIM) hh = 16;
+    }
     ysz = (size_t)(w + 64) * (hh + 64) * 3;
     yuv = malloc(ysz);
     for (i = 0; i < ysz; i++) yuv[i] = (unsigned char)((i * 29 + i / 11 + prng(&s) % 7) & 255);
@@ -659,7 +700,23 @@ static unsigned long long raw_decode(struct jpeg_decompress_struct *ci, struct p
   }
   jpeg_mem_src(ci, jb, (unsigned long)n);
   stage = 1;
+  jpeg_save_markers(ci, JPEG_COM, 0xFFFF);
+  jpeg_save_markers(ci, JPEG_APP0 + 1, 0xFFFF);
+  jpeg_save_markers(ci, JPEG_APP0 + 2, 0xFFFF);
   if (jpeg_read_header(ci, FALSE) != JPEG_HEADER_OK) { free(jb); free(row); *rcout = 1; return hash; }
+  {
+    /* what the application sees of the saved markers of THIS image */
+    jpeg_saved_marker_ptr m;
+    JOCTET *icc = NULL;
+    unsigned int icclen = 0;
+    for (m = ci->marker_list; m; m = m->next) {
+      hash = fnv(&m->marker, sizeof(m->marker), hash);
+      hash = fnv(&m->data_length, sizeof(m->data_length), hash);
+      hash = fnv(m->data, m->data_length, hash);
+    }
+    if (jpeg_read_icc_profile(ci, &icc, &icclen)) { hash = fnv(icc, icclen, hash); free(icc); }
+    hash = fnv(&icclen, sizeof(icclen), hash);
+  }
   ci->do_fancy_upsampling = fancy;
   if (ocs) ci->out_color_space = JCS_EXT_BGRX;
   if (ci->data_precision != 8 || ci->master->lossless) { jpeg_abort_decompress(ci); free(jb); free(row); *rcout = 2; return hash; }
